@@ -92,7 +92,13 @@ def assemble(soc):
         k = t["kind"]
         if k == "mux":
             mm = MemoryMap(addr_width=t["aw"], data_width=cdw, alignment=t["al"])
+            # the multiplexer does not freeze its map: for every other leaf it is constructed BEFORE some of the
+            # registers are added (they must be decoded like the others)
+            early = csrmux.early_point(len(t["regs"]), t["aw"], [(rc["size"], rc["width"]) for rc in t["regs"]])
+            mux = None
             for j, rc in enumerate(t["regs"]):
+                if j == early:
+                    mux = csr.Multiplexer(mm, shadow_overlaps=t["overlaps"])
                 reg = csrmux.MockReg(rc["width"], rc["acc"])
                 reg._c01_value = rc["value"] & ((1 << rc["width"]) - 1)
                 try:
@@ -100,7 +106,8 @@ def assemble(soc):
                                     **({"addr": rc["addr"]} if rc["addr"] is not None else {}))
                 except ValueError:
                     continue
-            mux = csr.Multiplexer(mm, shadow_overlaps=t["overlaps"])
+            if mux is None:
+                mux = csr.Multiplexer(mm, shadow_overlaps=t["overlaps"])
             sub("mux", mux)
             return mux.bus
         if k == "bridge":
